@@ -119,7 +119,7 @@ class OW(G):
         o = obj or r.choice(lo)
         s = r.choice([x for x in live if x.tok == o.tok] or live)
         ref = self.new_obj()
-        token = r.random() < 0.5
+        token = (r.random() < 0.5) or getattr(self, 'force_token', False)
         private = o.private if r.random() < 0.7 else (not o.private)
         tmpl = [A_bytes(K.CKA_LABEL, objs.label(ref)), A_bool(K.CKA_TOKEN, token)]
         if private != o.private or r.random() < 0.3: tmpl.append(A_bool(K.CKA_PRIVATE, private))
